@@ -202,6 +202,12 @@ proof! {
 }
 
 proof! {
+    fn routed_3x1_n1() {
+        routed::<1>(3, 1, "c15 routed_3x1_n1");
+    }
+}
+
+proof! {
     fn routed_3x5_n1() {
         routed::<1>(3, 5, "c15 routed_3x5_n1");
     }
